@@ -455,3 +455,16 @@ def captured():
 
 def say(*a):
     print(*a, file=sys.__stdout__, flush=True)
+
+
+@contextlib.contextmanager
+def quiet():
+    """like captured() but without the garbage collection pass: for library-level calls (codec encode/check/decode) that create no Tee"""
+    so, se = sys.__stdout__, sys.__stderr__
+    buf = io.StringIO()
+    sys.stdout = buf
+    sys.stderr = io.StringIO()
+    try:
+        yield buf
+    finally:
+        sys.stdout, sys.stderr = so, se
